@@ -31,13 +31,15 @@ ASSUMPTIONS = [
 def _spec(draw, tier):
     tree = draw(gens.field_tree(components.ALL_ACTIONS, enums=True, max_leaves=10))
     acc = draw(st.sampled_from(["r", "w", "rw", "rw", "rw"]))
-    via = draw(st.sampled_from(["arg", "arg", "annot", "annot_sub", "subclass_access"]))
+    via = draw(st.sampled_from(["arg", "arg", "annot", "annot", "annot_sub", "subclass_access", "subclass_access2"]))
     nvec = draw(st.integers(6, 14))
     vec = st.tuples(st.integers(0, (1 << 70) - 1), st.booleans(), st.booleans(), st.integers(0, 1 << 30)).map(list)
     return {"tree": tree, "acc": acc, "via": via, "vectors": draw(st.lists(vec, min_size=nvec, max_size=nvec)),
             # equal sub-descriptions are the same Python object; the whole description was already used
             # for another register before; action classes are trivial user subclasses
             "share": draw(st.booleans()), "reuse": draw(st.sampled_from([0, 0, 0, 1, 2])),
+            # annotation-defined registers: other annotations (strings, ints, None, empty collections) sit between the fields
+            "junk": draw(st.sampled_from([0, 0, 1, 2, 3])),
             "subclass": draw(st.sampled_from([False, False, False, True]))}
 
 
@@ -59,8 +61,42 @@ def _build(spec):
     return _build_from(fields, spec)
 
 
+def _with_junk(x, k, depth=0):
+    """Annotations that are not fields (a class may annotate anything) mixed into the description:
+    the register is made of the fields alone."""
+    from amaranth_soc.csr import Field
+    if isinstance(x, Field) or not k:
+        return x
+    junk = ["note", None, 7, [], {}, ["only", "junk"], {"doc": "text"}]
+    if isinstance(x, dict):
+        out = {}
+        for i, (key, v) in enumerate(x.items()):
+            if (i + k + depth) % 2 == 0:
+                out[f"_junk{depth}_{i}"] = junk[(i + k) % len(junk)]
+            out[key] = _with_junk(v, k, depth + 1)
+        if k >= 2:
+            out[f"_tail{depth}"] = junk[(k + depth) % len(junk)]
+        return out
+    out = []
+    for i, v in enumerate(x):
+        if (i + k + depth) % 2 == 0:
+            out.append(junk[(i + k + 1) % len(junk)])
+        out.append(_with_junk(v, k, depth + 1))
+    if k >= 2:
+        out.append(junk[(k + depth + 3) % len(junk)])
+    return out
+
+
 def _build_from(fields, spec):
     via = spec["via"]
+    if via in ("annot", "annot_sub") and "d" in spec["tree"]:
+        fields = _with_junk(fields, spec.get("junk", 0))
+    if via == "subclass_access2":
+        # the base class declares another access mode than the subclass that is instantiated
+        other = {"r": "rw", "w": "r", "rw": "w"}[spec["acc"]]
+        base = type("BaseAcc", (csr.Register,), {}, access=other)
+        cls = type("SubAcc", (base,), {}, access=spec["acc"])
+        return cls(fields)
     if via == "annot" and "d" in spec["tree"]:
         cls = type("AnnotReg", (csr.Register,), {"__annotations__": dict(fields)})
         return cls(access=spec["acc"])
@@ -82,6 +118,8 @@ def check(spec, stats):
     tree, acc = spec["tree"], spec["acc"]
     leaves = gens.tree_leaves(tree)
     stats.label("via:" + (spec["via"] if spec["via"] in ("annot", "annot_sub") and "d" in tree else "arg"))
+    stats.label("annotations_with_non_field_items", spec["via"] in ("annot", "annot_sub") and "d" in tree and bool(spec.get("junk")))
+    stats.label("subclass_redeclares_access", spec["via"] == "subclass_access2")
     stats.label("root:" + ("dict" if "d" in tree else "list" if "l" in tree else "field"))
     need_r, need_w = gens.tree_access_needed(tree)
     must_refuse = (need_r and "r" not in acc) or (need_w and "w" not in acc)
